@@ -21,6 +21,8 @@ type FaultPlan struct {
 	mu    sync.Mutex
 	Sites map[string]map[string]string // site -> key -> mode
 	Fired []string                     // "site key mode"
+	// Disabled suspends every planned fault (used while a check prepares state).
+	Disabled bool
 	// OnSign, if set, is called for every AccountSigner.Sign invocation before signing.
 	OnSign func(pubKey []byte, root []byte)
 	// AfterSign, if set, is called after every AccountSigner.Sign invocation.
@@ -45,6 +47,9 @@ func (p *FaultPlan) Hit(site string, key string) (string, bool) {
 	}
 	p.mu.Lock()
 	defer p.mu.Unlock()
+	if p.Disabled {
+		return "", false
+	}
 	m := p.Sites[site]
 	if m == nil {
 		return "", false
